@@ -272,6 +272,13 @@ func runC11(r *mon.Run) {
 		x := dec.D{Form: dec.Finite, C: new(big.Int).Mul(new(big.Int).Mul(root, root), root), E: 0}
 		cbrtCase(t, "value", dec.Ctx{P: 14, Emin: -99, Emax: 99, Mode: "half_even"}, x)
 		t.Count("pinned")
+		// fixed: Cbrt(4.913E-9) at p=3 under RoundCeiling returned 0.00171 (exact root 0.0017)
+		for _, m := range []string{"ceiling", "up", "05up", "floor"} {
+			for _, neg := range []bool{false, true} {
+				cbrtCase(t, "value", dec.Ctx{P: 3, Emin: -9, Emax: 9, Mode: m}, dec.D{Form: dec.Finite, Neg: neg, C: big.NewInt(4913000), E: -15})
+				t.Count("pinned")
+			}
+		}
 	})
 	r.Witness("KF-C11-cbrt-nonconvergence", func() (bool, string) {
 		c := dec.Ctx{P: 1, Emin: -100000, Emax: 100000, Mode: "half_up"}
